@@ -5,6 +5,7 @@ mod bl;
 mod ck;
 mod cms;
 mod hll;
+mod lc;
 mod qf;
 
 use common::*;
@@ -88,6 +89,9 @@ fn main() {
         ("scenario", "hll") => scenario::<hll::HllSut>(&args),
         ("drive", "hll") => hll::drive(&args),
         ("serde", "hll") => hll::serde_docs(&args),
+        ("replay", "lc") => replay::<lc::LcSut>(&args),
+        ("scenario", "lc") => scenario::<lc::LcSut>(&args),
+        ("drive", "lc") => lc::drive(&args),
         ("replay", "ck") => replay::<ck::CkSut>(&args),
         ("scenario", "ck") => scenario::<ck::CkSut>(&args),
         ("drive", "ck") => ck::drive(&args),
